@@ -652,10 +652,9 @@ func encodeLossless(img image.Image, opts *EncoderOptions) ([]byte, uint32, erro
 				r, g, b := rgba.Pix[off], rgba.Pix[off+1], rgba.Pix[off+2]
 				// Un-premultiply for lossless encoding (VP8L stores NRGBA).
 				if a > 0 && a < 255 {
-					a16 := uint16(a)
-					r = uint8(uint16(r) * 255 / a16)
-					g = uint8(uint16(g) * 255 / a16)
-					b = uint8(uint16(b) * 255 / a16)
+					r = unpremultiply8(r, a)
+					g = unpremultiply8(g, a)
+					b = unpremultiply8(b, a)
 				}
 				argb[y*width+x] = uint32(a)<<24 | uint32(r)<<16 | uint32(g)<<8 | uint32(b)
 			}
@@ -718,10 +717,9 @@ func encodeLosslessToWriter(w io.Writer, img image.Image, opts *EncoderOptions) 
 				a := rgba.Pix[off+3]
 				r, g, b := rgba.Pix[off], rgba.Pix[off+1], rgba.Pix[off+2]
 				if a > 0 && a < 255 {
-					a16 := uint16(a)
-					r = uint8(uint16(r) * 255 / a16)
-					g = uint8(uint16(g) * 255 / a16)
-					b = uint8(uint16(b) * 255 / a16)
+					r = unpremultiply8(r, a)
+					g = unpremultiply8(g, a)
+					b = unpremultiply8(b, a)
 				}
 				argb[y*width+x] = uint32(a)<<24 | uint32(r)<<16 | uint32(g)<<8 | uint32(b)
 			}
@@ -817,10 +815,9 @@ func cleanupTransparentAreaLossyWith(img image.Image, hasAlpha bool) image.Image
 					nrgba.Pix[doff+2] = src.Pix[soff+2]
 					nrgba.Pix[doff+3] = 255
 				} else {
-					a16 := uint16(a)
-					nrgba.Pix[doff] = uint8(uint16(src.Pix[soff]) * 255 / a16)
-					nrgba.Pix[doff+1] = uint8(uint16(src.Pix[soff+1]) * 255 / a16)
-					nrgba.Pix[doff+2] = uint8(uint16(src.Pix[soff+2]) * 255 / a16)
+					nrgba.Pix[doff] = unpremultiply8(src.Pix[soff], a)
+					nrgba.Pix[doff+1] = unpremultiply8(src.Pix[soff+1], a)
+					nrgba.Pix[doff+2] = unpremultiply8(src.Pix[soff+2], a)
 					nrgba.Pix[doff+3] = a
 				}
 			}
@@ -1125,6 +1122,16 @@ func putLE24(buf []byte, v uint32) {
 	buf[0] = byte(v)
 	buf[1] = byte(v >> 8)
 	buf[2] = byte(v >> 16)
+}
+
+// unpremultiply8 converts one alpha-premultiplied 8-bit channel to its
+// non-premultiplied value with the 16-bit arithmetic of color.NRGBAModel, so
+// that the *image.RGBA fast paths produce the same pixels as the generic
+// image.Image path (an 8-bit c*255/a truncates differently for many c, a).
+func unpremultiply8(c, a uint8) uint8 {
+	c16 := uint32(c) * 0x101
+	a16 := uint32(a) * 0x101
+	return uint8((c16 * 0xffff / a16) >> 8)
 }
 
 // imageHasAlpha reports whether the image has any pixel with alpha < 255.
